@@ -55,7 +55,7 @@ CHECKS["C18"] = dict(
 )
 
 CHECKS["C03"] = dict(
-    text="Static decision of two structural clauses over all 35 scalar-multiplication bodies of the prime-curve module (variable base, fixed base, simultaneous, incl. static helpers): on every path to a normal return the result is last written by a normalisation, ep_set_infty, a delegation to another routine of the family, or a form-preserving step (SM-NORM; forward must-dataflow over the exploded CFG, evaluated per world of the configuration queries such as ep_curve_is_endom()), and every scalar reaching a recoder that writes a fixed-size array was reduced modulo the group order or decomposed from such a value (SM-RED; bit-length bounds propagated through bn_mod / bn_abs / bn_rec_glv). Right level: the suite compares with ep_cmp, which cross-multiplies by Z, so a dropped normalisation passes it; long scalars are never generated. The group law, the meaning of recodings and exceptional-case dispatch are value properties and are not decided.",
+    text="Static decision of two structural clauses over all 35 scalar-multiplication bodies of the prime-curve module (variable base, fixed base, simultaneous, incl. static helpers): on every path to a normal return the result is last written by a normalisation, ep_set_infty, a delegation to another routine of the family, or a form-preserving step (SM-NORM; forward must-dataflow over the exploded CFG, evaluated per world of the configuration queries such as ep_curve_is_endom()), and every scalar reaching a recoder that writes a fixed-size array was reduced modulo the group order or decomposed from such a value (SM-RED; bit-length bounds propagated through bn_mod / bn_abs / bn_rec_glv; also the scalar handed to the GLV decomposition), every sibling honours the sign of each scalar parameter (SM-SIGN), and no coordinate of an output point is read before it was written on every path (OUT-RBW). Right level: the suite compares with ep_cmp, which cross-multiplies by Z, so a dropped normalisation passes it; long scalars are never generated. The group law, the meaning of recodings and exceptional-case dispatch are value properties and are not decided.",
     design_ref="DESIGN.md section 3 (C03)",
     note="Trusted: clang parser/CFG, extractor, the tables of normalisers / form-preserving steps and of bit-length-preserving bn operations; configuration queries are assumed to return the same value at every test within one call. Validated on every run by miniatures in sa/selftest/c03.c.",
     technique="forward must-dataflow (must-pass-through with delegation closure) over the clang CFG",
@@ -118,16 +118,28 @@ CHECKS["C10"] = dict(
 )
 
 CHECKS["C16"] = dict(
-    text="Static decision of four structural clauses of C16 over src/fb and src/fbx: all eight selectable inversion algorithms return normally only where fb_is_zero(a) was tested false, the zero side leaving by the error (INV0, sibling agreement; the build selects one variant); the three exponentiation siblings consult the sign of the exponent on every path returning a power and answer one for a zero exponent they tell apart (EXP-SIB); no input element is read in a later statement than a write of an output element that may be the same object (ALIAS-RW); no const input is stored through (CONST-IN). Polynomial arithmetic over GF(2), reduction modulo the configured polynomial, trace/half-trace, the binary-curve group law, halving, Frobenius and every scalar-multiplication value are value properties and are not decided; the binary-curve decoders, recoding buffers and ladders are decided under C07, C08 and C20.",
+    text="Static decision of four structural clauses of C16 over src/fb and src/fbx: all eight selectable inversion algorithms return normally only where fb_is_zero(a) was tested false, the zero side leaving by the error (INV0, sibling agreement; the build selects one variant); the three exponentiation siblings consult the sign of the exponent on every path returning a power and answer one for a zero exponent they tell apart (EXP-SIB); no input element is read in a later statement than a write of an output element that may be the same object (ALIAS-RW); no const input is stored through (CONST-IN); every binary-curve scalar-multiplication sibling honours the sign of each scalar parameter (SM-SIGN, 30 scalar parameters) and no coordinate of an output point is read before it was written (OUT-RBW, 51 outputs). Polynomial arithmetic over GF(2), reduction modulo the configured polynomial, trace/half-trace, the binary-curve group law, halving, Frobenius and every scalar-multiplication value are value properties and are not decided; the binary-curve decoders, recoding buffers and ladders are decided under C07, C08 and C20.",
     design_ref="DESIGN.md section 10.6 (C16)",
     note="Trusted: clang parser/CFG, extractor, the sibling name patterns (floors 8 and 3), two reviewed ALIAS-RW exceptions (in-place batch inversion reads element i before writing it). Validated on every run by miniatures in sa/selftest/c16.c.",
     technique="forward must-dataflow (guard dominance at normal returns, sibling agreement) + may-alias read-after-write analysis + parameter-write summaries over the clang CFG",
 )
 
+CHECKS["C11"] = dict(
+    text="Static decision of three structural clauses of C11 over src/epx (curves over quadratic, cubic, quartic and octic extensions; the ep3/ep4/ep8 code compiles in every configuration and is run by none of the suite's) under the 256- and 381-bit configuration headers: every scalar-multiplication sibling - variable base, fixed base, simultaneous and GLS forms, 114 scalar parameters - honours the sign of each scalar on every path that returns a point computed from it, by a sign test (also of a copy or of the sub-scalars of a decomposition), a reduction modulo the order or delegation to a sibling, paths on which the term is moot or the result is the identity excepted (SM-SIGN: forward must-dataflow per world of the configuration queries; 'all scalars as in C03 ... negative'); no coordinate of an output point is read before it was written on every path (OUT-RBW, must-definition analysis over 231 outputs; the suite calls these routines in place, where such a slip is invisible); no const input is stored through (CONST-IN). The cofactor routines are decided under C13, decoders/buffers/regular recodings under C07/C08/C20. The group law, [k]Q as a value, the Frobenius eigenvalue and the cofactor image are algebraic and are not decided; scalars longer than the group order are not reduced by these siblings today and that clause is not claimed (DESIGN.md 10.6).",
+    design_ref="DESIGN.md section 10.6 (C11)",
+    note="Trusted: clang parser/CFG, extractor, the sibling name pattern (floor 100 scalar parameters), the convention that the point a scalar multiplies is the parameter just before it, that bn_rec_frb/bn_rec_glv give their sub-scalars signs that denote the scalar's. Validated on every run by miniatures in sa/selftest/c11.c.",
+    technique="forward must-dataflow (sibling agreement on scalar sign handling) + must-definition analysis of output fields + parameter-write summaries over the clang CFG",
+)
+
+CHECKS["C17"] = dict(
+    text="Static decision of three structural clauses of C17 over src/ed under the 256-bit configuration header - where no Edwards curve is selectable, so the suite runs none of this module while the analyser parses all of it - and the 255-bit one: every scalar-multiplication sibling honours the sign of each scalar parameter on every path that returns a point computed from it (SM-SIGN, 27 scalar parameters); no coordinate of an output point is read before it was written on every path (OUT-RBW, 44 outputs); no const input is stored through (CONST-IN). Hashing to the curve and cofactor clearing are decided under C13, the decoder under C07, recoding buffers under C08 (where the module's one-short buffer was found), the ladder under C20. The Edwards group law in each coordinate system, [k]P as a value and the compression round trip are value properties and are not decided; scalars longer than the group order are not reduced by these siblings today and that clause is not claimed (DESIGN.md 10.6).",
+    design_ref="DESIGN.md section 10.6 (C17)",
+    note="Trusted: clang parser/CFG, extractor, the sibling name pattern (floor 20 scalar parameters), the convention that the point a scalar multiplies is the parameter just before it. Validated on every run by miniatures in sa/selftest/c17.c.",
+    technique="forward must-dataflow (sibling agreement on scalar sign handling) + must-definition analysis of output fields + parameter-write summaries over the clang CFG",
+)
+
 NOT_APPLICABLE = {
-    "C11": "group law, [k]Q, Frobenius eigenvalue and cofactor image are algebraic identities over runtime values; the structural clauses (decoders, buffers, regularity) of the ep2..ep8 siblings are decided under C07, C08 and C20",
     "C14": "conformance of output bytes to FIPS/RFC for every input length is a value property of padding arithmetic; the one structural clause (invalid PKCS#7 padding rejected and the status propagated) is decided under C06",
-    "C17": "value properties of the Edwards group law; the module's structural defects surface under C08 (buffers), C07 (decoder) and C20 (ladder)",
 }
 
 ALL = ["C%02d" % i for i in range(1, 21)]
